@@ -1009,6 +1009,9 @@ def provider_mapping(ctx, crate, crs):
                 reorder = sorted(lvn & {"sort", "sort_by", "sort_by_key", "sort_unstable", "sort_unstable_by_key", "rev", "dedup", "dedup_by_key", "retain",
                                         "skip", "take", "step_by", "filter", "unique", "sorted", "truncate"})
                 bad_ty = any(x in aty for x in ("BTreeSet", "HashSet", "BTreeMap", "HashMap", "IndexSet", "BinaryHeap"))
+                # ... nor edited in place on its way (`v.sort_unstable(); v.dedup();` through a &mut borrow - area seed C17-20)
+                import c16
+                reorder = sorted(set(reorder) | {"in-place " + x for x in c16._edits_in_place(rs, q.slice_locals(rs, t["args"][1]))})
                 ctx.ob(R, rs.key, "problem.%s:in-caller-order" % fld, not reorder and not bad_ty, where_call(rs, i),
                        "the entries are handed to the solver in the caller's order, none dropped (argument type %s%s)" %
                        (aty[:60], ("; uses " + ", ".join(reorder)) if reorder else ""))
